@@ -59,8 +59,29 @@ fn tail_steps(k: u64) -> Vec<Value> {
     v
 }
 
-pub fn run(sched_path: &str, out_path: &str, max_points: usize, abort_mode: bool) -> i32 {
-    let _ = abort_mode;
+/// Child of the abort mode: plays the prefix in `dir`, arms the fail-point with abort = true and executes the target
+/// operation; the process dies inside it (SIGABRT, no destructor runs, RocksDB is never closed).
+pub fn child(dir: &str, sched_path: &str, t: usize, at: u64) -> i32 {
+    let rt = crate::inst::runtime();
+    let sched: Value = serde_json::from_str(&std::fs::read_to_string(sched_path).expect("schedule")).expect("json");
+    let steps: Vec<Value> = sched["steps"].as_array().cloned().unwrap_or_default();
+    let mut p = match Player::new(rt, std::path::Path::new(dir), "regtest", true) {
+        Ok(p) => p,
+        Err(e) => {
+            eprintln!("open: {}", e);
+            return 2;
+        }
+    };
+    let mut scratch = Vec::new();
+    let mut book = Book { durable: -1, max_ever: -1 };
+    play_prefix(&mut p, &steps[..t], &mut scratch, &mut book);
+    brc20_prog::verif::persist_start(Some(at), true);
+    let _ = p.step_noobs(&steps[t]);
+    // not reached when the fail-point fired
+    3
+}
+
+pub fn run(sched_path: &str, out_path: &str, max_points: usize, abort_points: usize) -> i32 {
     use std::io::BufRead;
     let rt = crate::inst::runtime();
     let f = std::fs::File::open(sched_path).expect("schedules");
@@ -70,6 +91,7 @@ pub fn run(sched_path: &str, out_path: &str, max_points: usize, abort_mode: bool
     let mut points = 0u64;
     let mut skipped = 0u64;
     let mut run_id = 0u64;
+    let mut hard_n = 0u64;
     for line in std::io::BufReader::new(f).lines() {
         let line = line.unwrap();
         if line.trim().is_empty() {
@@ -110,16 +132,50 @@ pub fn run(sched_path: &str, out_path: &str, max_points: usize, abort_mode: bool
             let during = steps[t]["op"].as_str().unwrap_or("").to_string();
             // crash points: all of them, or an even sample
             let idxs: Vec<usize> = if n <= max_points { (1..=n).collect() } else { (0..max_points).map(|k| 1 + k * (n - 1) / (max_points - 1)).collect() };
-            for i in idxs {
+            // a few of the points are executed by a child process that really dies (abort inside the write path): nothing
+            // is flushed or closed, so what survives is exactly what RocksDB had made durable
+            let abort_at: Vec<usize> = if abort_points == 0 || n == 0 { vec![] } else {
+                let mut v: Vec<usize> = (0..abort_points).map(|k| 1 + k * (n - 1) / (abort_points.max(2) - 1)).filter(|x| *x <= n).collect();
+                v.dedup();
+                v
+            };
+            let mut plan: Vec<(usize, bool)> = idxs.iter().map(|i| (*i, false)).collect();
+            plan.extend(abort_at.iter().map(|i| (*i, true)));
+            for (i, hard) in plan {
                 run_id += 1;
                 let dir = tempfile::TempDir::new().unwrap();
+                let child_dir = tempfile::TempDir::new().unwrap();
+                if hard {
+                    let sp = child_dir.path().join("sched.json");
+                    std::fs::write(&sp, sched.to_string()).unwrap();
+                    let dbdir = child_dir.path().join("db");
+                    std::fs::create_dir_all(&dbdir).unwrap();
+                    let st = std::process::Command::new(std::env::current_exe().unwrap())
+                        .args(["crash-child", dbdir.to_str().unwrap(), sp.to_str().unwrap(), &t.to_string(), &i.to_string()])
+                        .stdout(std::process::Stdio::null()).stderr(std::process::Stdio::null()).status();
+                    use std::os::unix::process::ExitStatusExt;
+                    let died = st.as_ref().map(|s| s.signal().is_some()).unwrap_or(false);
+                    if !died {
+                        eprintln!("abort-mode child did not die at write {} of {}: {:?}", i, n, st);
+                        return 2;
+                    }
+                }
                 let mut p = Player::new(rt.clone(), dir.path(), "regtest", true).unwrap();
-                let mut evs = vec![json!({"ev": "Reset", "run": run_id, "res": "ok", "traces": true, "net": "regtest", "sched": sched["run"], "target": t, "at": i, "of": n})];
+                let mut evs = vec![json!({"ev": "Reset", "run": run_id, "res": "ok", "traces": true, "net": "regtest", "sched": sched["run"], "target": t, "at": i, "of": n, "hard": hard})];
                 let mut book = Book { durable: -1, max_ever: -1 };
                 play_prefix(&mut p, &steps[..t], &mut evs, &mut book);
-                brc20_prog::verif::persist_start(Some(i as u64), false);
-                let ev = p.step_noobs(&steps[t]);
-                let _ = brc20_prog::verif::persist_stop();
+                let ev = if hard {
+                    // the parent's player has the same names and universes (the prefix is deterministic); it now takes over
+                    // the directory the child died in
+                    p.inst.close();
+                    p.inst.dir = child_dir.path().join("db");
+                    json!({"res": "err", "err": "injected crash (process aborted)"})
+                } else {
+                    brc20_prog::verif::persist_start(Some(i as u64), false);
+                    let ev = p.step_noobs(&steps[t]);
+                    let _ = brc20_prog::verif::persist_stop();
+                    ev
+                };
                 if ev["res"] != json!("err") || !ev["err"].as_str().unwrap_or("").contains("injected crash") {
                     evs.push(json!({"ev": "Crash", "during": during, "n": steps[t]["n"], "at": i, "of": n, "res": "not-injected", "detail": ev["err"]}));
                 } else {
@@ -129,6 +185,9 @@ pub fn run(sched_path: &str, out_path: &str, max_points: usize, abort_mode: bool
                 p.mid_block = false;
                 evs.push(json!({"ev": "Reopen", "res": if r.is_ok() { "ok" } else { "err" }, "err": r.err().unwrap_or_default()}));
                 points += 1;
+                if hard {
+                    hard_n += 1;
+                }
                 if during != "finalise" {
                     let cap = if during == "reorg" { book.durable.min(steps[t]["n"].as_i64().unwrap_or(0)) } else { book.durable };
                     // an admissible recovery target: durable, not above the interrupted reorg's target, inside the window
@@ -160,6 +219,6 @@ pub fn run(sched_path: &str, out_path: &str, max_points: usize, abort_mode: bool
         }
     }
     out.flush().unwrap();
-    println!("{}", json!({"runs": runs, "crash_points": points, "skipped": skipped, "orders": orders}));
+    println!("{}", json!({"runs": runs, "crash_points": points, "skipped": skipped, "orders": orders, "hard_kills": hard_n}));
     0
 }
